@@ -3,7 +3,7 @@
    ReConnect, selector picks, the moment the reinstating goroutine runs and registry answers are label data).
    "run init ls = Some s" / "reachable s": s is the state after ANY label sequence ls the machine accepts.
    History vocabulary (Failover.v): fails_since ai ls = failed calls on adapter ai since it was created / last
-   reinstated; streak ai ls = failed calls in a row; clock ls = now; last_ok ai ls = time of the last answered call.
+   reinstated; streak ai ls = failed calls in a row; clock ls = now; last_ok ai ls = time of the last answered call (or one-way call handed to the transport).
    Thresholds are the regenerated constants of Gen/Consts.v (2, 5, 5 s, 30 s appear literally below; a changed
    constant breaks the proofs). *)
 From Coq Require Import List NArith ZArith Bool.
@@ -85,6 +85,16 @@ Theorem C15_late_replies_do_not_count : forall ai ls,
   fails_since ai ls' = fails_since ai ls /\ streak ai ls' = streak ai ls /\ last_ok ai ls' = last_ok ai ls /\ clock ls' = clock ls.
 Proof. exact FailoverQueue.late_replies_do_not_count. Qed.
 Print Assumptions C15_late_replies_do_not_count.
+
+(* one-way calls: the outcome of a call is what counts, whatever its packet type. A call that fails at Send is the label
+   Out _ false _ (one-way or two-way alike: fails_since and streak above count it); a one-way call handed to the transport
+   (label Sent) is booked as a success, awaits nothing and - being no answer - reinstates nothing (C15_stays_blocked
+   quantifies over histories with Sent labels too) *)
+Theorem C15_one_way_sent_effect : forall s ai p s', step s (Sent ai p) = Some s' ->
+  exists a, get ai s = Some a /\ get ai s' = Some (succ_add (now s) a) /\
+            reinst s' = reinst s /\ sel s' = sel s /\ active s' = active s /\ probeq s' = probeq s.
+Proof. exact FailoverQueue.one_way_sent_effect. Qed.
+Print Assumptions C15_one_way_sent_effect.
 
 (* registry changes while an endpoint is blocked: a refresh keeps the health record of every endpoint it lists, as
    active or as inactive; in scope a blocked endpoint is in no selector, and it stays out - record attached - through
